@@ -109,7 +109,8 @@ def space_of(b, term, depth=0):
 def boundary_index(term):
     """the operand is computed from the parameter num_h_metrics alone (hmtx: the last long metric applies to all later glyphs)"""
     args = {x[2] for x in sym.walk(term) if x[0] == "arg"}
-    calls = [x for x in sym.walk(term) if x[0] == "call" and not (x[4] or "").endswith(("From::from", "Into::into"))]
+    calls = [x for x in sym.walk(term) if x[0] == "call" and not (x[4] or x[1] or "").endswith(
+        ("From::from", "Into::into", "::checked_sub", "::saturating_sub", "::ok_or", "Try::branch", "::unwrap_or"))]
     return args == {"num_h_metrics"} and not calls
 
 
